@@ -18,6 +18,10 @@ Dropped: comments, attributes, white space, punctuation, declaration keywords.
 the source, never by a check) states what these lists were when the model was written; its theorems
 are proof obligations of property Cnn, so a change to anchored code makes the check fall back to
 the search for a failing input and, if none is found, report `no-failing-input-found`.
+Besides the items the properties name, the translator follows calls: every function of the crate
+whose name is unique in the crate (and is not also a std method name) and that an anchored item
+calls, transitively, is recorded as `callee …` and pinned in the same way (a change in
+`scan::short_weekday` matters to whoever calls `short_or_long_weekday`).
 Output: lean/Chrono/Extracted/Anchors.lean and the item `anchors` of the extraction report.
 """
 import json
@@ -314,11 +318,66 @@ def ident(label):
     return re.sub(r"\W+", "_", label).strip("_")
 
 
+# method names that std / core types also have: a call `x.map(…)` says nothing about which `map`
+COMMON = {"new", "from", "into", "fmt", "next", "next_back", "clone", "eq", "ne", "cmp", "partial_cmp", "hash", "default",
+          "map", "and_then", "unwrap", "expect", "ok", "err", "ok_or", "unwrap_or", "min", "max", "abs", "neg", "add", "sub", "mul",
+          "div", "rem", "len", "is_empty", "contains", "first", "last", "iter", "get", "as_bytes", "as_ref", "try_from",
+          "try_into", "from_str", "parse", "deref", "borrow", "to_owned", "to_string", "write", "write_str", "write_char",
+          "checked_add", "checked_sub", "checked_mul", "checked_div", "checked_neg", "div_euclid", "rem_euclid", "pow", "size_hint",
+          "sum", "count", "nth", "filter", "fold", "zip", "rev", "take", "skip", "find", "position", "any", "all", "insert",
+          "remove", "push", "pop", "extend", "split_at", "trim", "copied", "cloned", "collect", "serialize", "deserialize",
+          "visit_i64", "visit_u64", "visit_str", "visit_some", "visit_none", "visit_unit", "expecting", "error", "main", "test"}
+
+
+def crate_index(api):
+    """name -> file for every `fn` that is defined exactly once in the crate (unix build, tests removed)"""
+    root = "/repo/src"
+    srcs, where = {}, {}
+    for dp, _, fns in os.walk(root):
+        for fn in sorted(fns):
+            rel = os.path.relpath(os.path.join(dp, fn), "/repo")
+            if not fn.endswith(".rs") or "windows" in rel or "wasm" in rel or "win_bindings" in rel or rel.endswith("tests.rs"):
+                continue
+            try:
+                srcs[rel] = strip_attrs(api.strip_comments(api.read(rel)))
+            except OSError:
+                continue
+            for m in re.finditer(r"\bfn\s+(\w+)\b", srcs[rel]):
+                where.setdefault(m.group(1), []).append(rel)
+    return srcs, {k: v[0] for k, v in where.items() if len(v) == 1 and k not in COMMON}
+
+
+def closure(items, srcs, uniq):
+    """crate functions with a crate-unique name that the anchored items call, transitively"""
+    have = {l for l, _ in items}
+    frontier = [t[:-1] for _, toks in items for t in toks if t.endswith("(") and not t.endswith("!(")]
+    added, seen = {}, set()
+    while frontier:
+        n = frontier.pop()
+        if n in seen:
+            continue
+        seen.add(n)
+        rel = uniq.get(n)
+        if rel is None:
+            continue
+        label = f"{rel}:fn {n}"
+        if label in have or ("callee " + label) in added:
+            continue
+        texts = find_fns(srcs[rel], n)
+        if not texts:
+            continue
+        toks = tokens(texts[0])
+        added["callee " + label] = toks
+        frontier += [t[:-1] for t in toks if t.endswith("(") and not t.endswith("!(")]
+    return sorted(added.items())
+
+
 def collect(api):
     props = [json.loads(l) for l in open(os.path.join(VERIF, "properties.jsonl"))]
     cache = {}
     result = {}      # pid -> [(label, tokens)]
     unresolved = {}
+    srcs, uniq = crate_index(api)
     for p in props:
         seen = {}
         for files, item in anchors_of(p):
@@ -334,7 +393,8 @@ def collect(api):
                         toks.append("§")
                     toks += tokens(t)
                 seen[label] = toks
-        result[p["id"]] = sorted(seen.items())
+        direct = sorted(seen.items())
+        result[p["id"]] = direct + closure(direct, srcs, uniq)
     return result, unresolved
 
 
